@@ -13,8 +13,9 @@
 (* Values are records [k, v]: k = "i" exact integer v; "nan"; "pinf";      *)
 (* "ninf"; "op" = OPAQUE (a float the specification does not compute; its  *)
 (* agreement with the reference engine is decided by the comparator).      *)
-(* A per-step result is [err, unk, vec]: err = the reference reports an    *)
-(* evaluation error at this step; unk = presence/labels depend on an       *)
+(* A per-step result is [why, unk, vec]: why = the set of reasons for which *)
+(* the reference reports an evaluation error at this step (empty = no      *)
+(* error); unk = presence/labels depend on an                              *)
 (* OPAQUE value or an unmodelled construct (scenario is not "structural"); *)
 (* vec = sequence of [ls : set of <<name,value>>, val : value].            *)
 (***************************************************************************)
@@ -114,6 +115,8 @@ Cmp(op, a, b) ==
 
 IsCmpOp(op)   == op \in {"==", "!=", "<", ">", "<=", ">="}
 IsArithOp(op) == op \in {"+", "-", "*", "/", "%", "^", "atan2"}
+\* at the pinned version atan2 is NOT in shouldDropMetricName
+DropsName(op) == op \in {"+", "-", "*", "/", "%", "^"}
 IsSetOp(op)   == op \in {"and", "or", "unless"}
 
 \* ------------------------------------------------------------------ labels
@@ -252,8 +255,10 @@ ClampMin(v, mn) == IF v.k = "op" \/ mn.k = "op" THEN Opaque            \* math.M
                    ELSE IF VLess(mn, v) THEN v ELSE mn
 
 \* ------------------------------------------------------------------ evaluation
-Res(err, unk, vec) == [err |-> err, unk |-> unk, vec |-> vec]
-ScalarRes(x) == Res(FALSE, FALSE, <<[ls |-> {}, val |-> x]>>)
+Res(why, unk, vec) == [why |-> why, unk |-> unk, vec |-> vec]
+OK == {}
+DupLS(v) == IF HasDupLS(v) THEN {"dupls"} ELSE {}
+ScalarRes(x) == Res(OK, FALSE, <<[ls |-> {}, val |-> x]>>)
 MapVec(vec, F(_)) == [i \in 1..Len(vec) |-> F(vec[i])]
 
 RECURSIVE Eval(_, _, _), EvalFn(_, _, _), EvalAgg(_, _, _), EvalBin(_, _, _)
@@ -267,7 +272,7 @@ Eval(sc, i, t) ==
          LET ref == RefTime(sc, n, t)
              js  == Matching(sc, n)
              hit == SelectSeq(js, LAMBDA j : SelIdx(sc.data[j], ref, Lookback(sc)) # 0)
-         IN Res(FALSE, FALSE,
+         IN Res(OK, FALSE,
                 [x \in 1..Len(hit) |->
                    LET d == sc.data[hit[x]] IN
                    [ls |-> ToSet(d.ls), val |-> SampleVal(d.smp[SelIdx(d, ref, Lookback(sc))]),
@@ -282,7 +287,7 @@ Eval(sc, i, t) ==
              \* two matching series that collide after the name is dropped: the reference fails the
              \* query if both produce points anywhere; not decided per step
              coll == \E a, b \in 1..Len(js) : a < b /\ outls(sc.data[js[a]]) = outls(sc.data[js[b]])
-         IN Res(FALSE, coll \/ n.fn \notin RangeFns,
+         IN Res(OK, coll \/ n.fn \notin RangeFns,
                 [x \in 1..Len(hit) |->
                    LET d == sc.data[hit[x]] IN
                    [ls |-> outls(d), val |-> Kernel(n.fn, WinSeq(d, WinIdx(d, ref, n.rng)))]])
@@ -292,13 +297,13 @@ Eval(sc, i, t) ==
     [] n.op = "neg" ->
          LET a == Eval(sc, n.args[1], t)
              v == MapVec(a.vec, LAMBDA e : [ls |-> DropName(e.ls), val |-> Neg(e.val)])
-         IN IF IsScalarNode(pl, n.args[1]) THEN Res(a.err, a.unk, MapVec(a.vec, LAMBDA e : [ls |-> {}, val |-> Neg(e.val)]))
-            ELSE Res(a.err \/ HasDupLS(v), a.unk, v)
+         IN IF IsScalarNode(pl, n.args[1]) THEN Res(a.why, a.unk, MapVec(a.vec, LAMBDA e : [ls |-> {}, val |-> Neg(e.val)]))
+            ELSE Res(a.why \cup DupLS(v), a.unk, v)
 
     [] n.op = "fn" -> EvalFn(sc, i, t)
     [] n.op = "agg" -> EvalAgg(sc, i, t)
     [] n.op = "bin" -> EvalBin(sc, i, t)
-    [] OTHER -> Res(FALSE, TRUE, <<>>)
+    [] OTHER -> Res(OK, TRUE, <<>>)
 
 \* scalar value of a scalar-typed node at t
 SVal(r) == IF Len(r.vec) = 1 THEN r.vec[1].val ELSE NaNV
@@ -310,31 +315,31 @@ EvalFn(sc, i, t) ==
   IN
   CASE n.fn = "time" -> ScalarRes(Seconds(sc, t))
     [] n.fn = "pi"   -> ScalarRes(Opaque)
-    [] n.fn = "vector" -> LET a == A(1) IN Res(a.err, a.unk, <<[ls |-> {}, val |-> SVal(a)]>>)
+    [] n.fn = "vector" -> LET a == A(1) IN Res(a.why, a.unk, <<[ls |-> {}, val |-> SVal(a)]>>)
     [] n.fn = "scalar" -> LET a == A(1) IN
-                          Res(a.err, a.unk, <<[ls |-> {}, val |-> IF Len(a.vec) = 1 THEN a.vec[1].val ELSE NaNV]>>)
+                          Res(a.why, a.unk, <<[ls |-> {}, val |-> IF Len(a.vec) = 1 THEN a.vec[1].val ELSE NaNV]>>)
     [] n.fn \in SimpleMath ->
          LET a == A(1)
              v == MapVec(a.vec, LAMBDA e : [ls |-> DropName(e.ls), val |-> MathVal(n.fn, e.val)])
-         IN Res(a.err \/ HasDupLS(v), a.unk, v)
+         IN Res(a.why \cup DupLS(v), a.unk, v)
     [] n.fn = "timestamp" ->
          LET a == A(1)
              direct == pl[n.args[1]].op = "sel"
              v == MapVec(a.vec, LAMBDA e : [ls |-> DropName(e.ls),
                                             val |-> IF direct THEN Seconds(sc, e.ts) ELSE Seconds(sc, t)])
-         IN Res(a.err \/ HasDupLS(v), a.unk, v)
+         IN Res(a.why \cup DupLS(v), a.unk, v)
     [] n.fn \in {"clamp_min", "clamp_max"} ->
          LET a == A(1)  b == A(2)  s == SVal(b)
              v == MapVec(a.vec, LAMBDA e : [ls |-> DropName(e.ls),
                            val |-> IF n.fn = "clamp_min" THEN ClampMin(e.val, s) ELSE ClampMax(e.val, s)])
-         IN Res(a.err \/ b.err \/ HasDupLS(v), a.unk \/ b.unk, v)
+         IN Res(a.why \cup b.why \cup DupLS(v), a.unk \/ b.unk, v)
     [] n.fn = "clamp" ->
          LET a == A(1)  b == A(2)  c == A(3)  mn == SVal(b)  mx == SVal(c)
              inv == Cmp("<", mx, mn)
              v == MapVec(a.vec, LAMBDA e : [ls |-> DropName(e.ls), val |-> ClampMin(ClampMax(e.val, mx), mn)])
-         IN IF inv = "T" THEN Res(a.err \/ b.err \/ c.err, a.unk \/ b.unk \/ c.unk, <<>>)
-            ELSE Res(a.err \/ b.err \/ c.err \/ HasDupLS(v), a.unk \/ b.unk \/ c.unk \/ inv = "U", v)
-    [] OTHER -> Res(FALSE, TRUE, <<>>)
+         IN IF inv = "T" THEN Res(a.why \cup b.why \cup c.why, a.unk \/ b.unk \/ c.unk, <<>>)
+            ELSE Res(a.why \cup b.why \cup c.why \cup DupLS(v), a.unk \/ b.unk \/ c.unk \/ inv = "U", v)
+    [] OTHER -> Res(OK, TRUE, <<>>)
 
 EvalAgg(sc, i, t) ==
   LET pl  == sc.plan
@@ -347,21 +352,21 @@ EvalAgg(sc, i, t) ==
       members(k) == SelectSeq(a.vec, LAMBDA e : GroupKey(n, e.ls) = k)
       ks  == SetToSeq(keys)
   IN
-  IF n.fn \notin AggFns THEN Res(FALSE, TRUE, <<>>)
+  IF n.fn \notin AggFns THEN Res(OK, TRUE, <<>>)
   ELSE IF n.fn \in {"topk", "bottomk"} THEN
        \* k is converted with int64(); NaN and out-of-range values are an error
        \* (the conversion is done at every step, also when the operand is empty at that step)
-       IF pv.k \in {"nan", "pinf", "ninf"} THEN Res(TRUE, a.unk \/ p.unk, <<>>)
-       ELSE IF pv.k = "op" THEN Res(a.err \/ p.err, TRUE, <<>>)
-       ELSE IF pv.v < 1 THEN Res(a.err \/ p.err, a.unk \/ p.unk, <<>>)
+       IF pv.k \in {"nan", "pinf", "ninf"} THEN Res(a.why \cup p.why \cup {"kparam"}, a.unk \/ p.unk, <<>>)
+       ELSE IF pv.k = "op" THEN Res(a.why \cup p.why, TRUE, <<>>)
+       ELSE IF pv.v < 1 THEN Res(a.why \cup p.why, a.unk \/ p.unk, <<>>)
        ELSE LET sel(k) == TopK(n.fn, pv.v, members(k))
                 out == FlattenSeq([x \in 1..Len(ks) |->
                           LET m == members(ks[x]) s == sel(ks[x]) IN
                           SelectSeq([y \in 1..Len(m) |-> [ls |-> m[y].ls, val |-> m[y].val, keep |-> y \in s.keep]],
                                     LAMBDA e : e.keep)])
-            IN Res(a.err \/ p.err, a.unk \/ p.unk \/ (\E k \in keys : sel(k).unk),
+            IN Res(a.why \cup p.why, a.unk \/ p.unk \/ (\E k \in keys : sel(k).unk),
                    MapVec(out, LAMBDA e : [ls |-> e.ls, val |-> e.val]))
-  ELSE Res(a.err \/ p.err, a.unk \/ p.unk,
+  ELSE Res(a.why \cup p.why, a.unk \/ p.unk,
            [x \in 1..Len(ks) |->
               [ls |-> ks[x], val |-> Reduce(n.fn, MapVec(members(ks[x]), LAMBDA e : e.val))]])
 
@@ -369,7 +374,7 @@ Sig(n, ls) == IF n.on THEN LKeep(ls, ToSet(n.ml)) ELSE LDrop(ls, ToSet(n.ml) \cu
 
 \* result metric of a matched pair: many = the "many"-side element's labels, one = the other side's
 ResultMetric(n, many, one) ==
-  LET base0 == IF IsArithOp(n.fn) \/ n.bool THEN DropName(many) ELSE many
+  LET base0 == IF DropsName(n.fn) \/ n.bool THEN DropName(many) ELSE many
       base  == IF n.card = "1:1"
                  THEN (IF n.on THEN LKeep(base0, ToSet(n.ml)) ELSE LDrop(base0, ToSet(n.ml)))
                  ELSE base0
@@ -384,10 +389,10 @@ EvalBin(sc, i, t) ==
       r  == Eval(sc, n.args[2], t)
       ls == IsScalarNode(pl, n.args[1])
       rs == IsScalarNode(pl, n.args[2])
-      err == l.err \/ r.err
+      why == l.why \cup r.why
       unk == l.unk \/ r.unk
   IN
-  IF IsSetOp(n.fn) THEN Res(FALSE, TRUE, <<>>)
+  IF IsSetOp(n.fn) THEN Res(OK, TRUE, <<>>)
   ELSE IF ls /\ rs THEN
      LET a == SVal(l) b == SVal(r) IN
      IF IsCmpOp(n.fn)
@@ -406,19 +411,23 @@ EvalBin(sc, i, t) ==
           IN IF n.bool THEN
                LET v == MapVec(vecr.vec, LAMBDA e : [ls |-> DropName(e.ls),
                                   val |-> IF c(e) = "U" THEN Opaque ELSE IF c(e) = "T" THEN I(1) ELSE I(0)])
-               IN Res(err \/ HasDupLS(v), unk, v)
+               IN Res(why \cup DupLS(v), unk, v)
              ELSE
                LET kept == SelectSeq(vecr.vec, LAMBDA e : c(e) = "T")
-               IN Res(err, unk \/ anyU, MapVec(kept, LAMBDA e : [ls |-> e.ls, val |-> e.val]))
+               IN Res(why, unk \/ anyU, MapVec(kept, LAMBDA e : [ls |-> e.ls, val |-> e.val]))
         ELSE
-          LET v == MapVec(vecr.vec, LAMBDA e : [ls |-> DropName(e.ls), val |-> Arith(n.fn, lhs(e), rhs(e))])
-          IN Res(err \/ HasDupLS(v), unk, v)
+          LET v == MapVec(vecr.vec, LAMBDA e : [ls |-> IF DropsName(n.fn) THEN DropName(e.ls) ELSE e.ls,
+                                                val |-> Arith(n.fn, lhs(e), rhs(e))])
+          IN Res(why \cup DupLS(v), unk, v)
   ELSE
      \* vector (op) vector
      LET swap  == n.card = "1:N"
          manyV == IF swap THEN r.vec ELSE l.vec        \* the "many" side (lhs unless group_right)
          oneV  == IF swap THEN l.vec ELSE r.vec        \* the "one" side
-         dupOne == \E x, y \in 1..Len(oneV) : x < y /\ Sig(n, oneV[x].ls) = Sig(n, oneV[y].ls)
+         dupSigs == {Sig(n, oneV[x].ls) : x \in {x \in 1..Len(oneV) : \E y \in 1..Len(oneV) : x # y /\ Sig(n, oneV[x].ls) = Sig(n, oneV[y].ls)}}
+         dupOne == dupSigs # {}
+         \* does some duplicated one-side signature have a partner on the many side at this step ?
+         dupPartner == \E x \in 1..Len(manyV) : Sig(n, manyV[x].ls) \in dupSigs
          match(e) == SelectSeq(oneV, LAMBDA o : Sig(n, o.ls) = Sig(n, e.ls))
          \* operands in source order
          lv(e, o) == IF swap THEN o.val ELSE e.val
@@ -436,9 +445,10 @@ EvalBin(sc, i, t) ==
          \* one-to-one: two kept pairs with the same signature; many-to-one: same signature and same result metric
          multi == \E x, y \in 1..Len(out) : x < y /\ out[x].sig = out[y].sig /\ (n.card = "1:1" \/ out[x].ls = out[y].ls)
          v     == MapVec(out, LAMBDA e : [ls |-> e.ls, val |-> e.val])
-     IN IF Len(l.vec) = 0 \/ Len(r.vec) = 0 THEN Res(err, unk, <<>>)
-        ELSE IF dupOne THEN Res(TRUE, unk, <<>>)
-        ELSE Res(err \/ multi \/ HasDupLS(v), unk \/ anyU, v)
+     IN IF Len(l.vec) = 0 \/ Len(r.vec) = 0 THEN Res(why, unk, <<>>)
+        ELSE IF dupOne THEN Res(why \cup {IF dupPartner THEN "dupone-partner" ELSE "dupone-nopartner"}, unk, <<>>)
+        ELSE Res(why \cup (IF multi THEN {IF n.card = "1:1" THEN "multi-1to1" ELSE "multi-group"} ELSE {}) \cup DupLS(v),
+                 unk \/ anyU, v)
 
 \* ------------------------------------------------------------------ whole-query results
 Root(sc) == Len(sc.plan)
@@ -448,6 +458,7 @@ StepRes(sc, t) == Eval(sc, Root(sc), t)
 \* that the engine agrees with this).
 GridRes(sc) == LET g == Grid(sc) IN [x \in 1..Len(g) |-> StepRes(sc, g[x])]
 
-AnyErr(gr) == \E x \in 1..Len(gr) : gr[x].err
+AnyErr(gr) == \E x \in 1..Len(gr) : gr[x].why # {}
+Whys(gr) == UNION {gr[x].why : x \in 1..Len(gr)}
 AnyUnk(gr) == \E x \in 1..Len(gr) : gr[x].unk
 =============================================================================
